@@ -9,9 +9,9 @@ NOTES = ('Contract-based deductive verification of the real code. Engine V: Veru
          'See DESIGN.md.')
 ENGINES = [
     {'name': 'V', 'path': '/verif/lib/verus_engine.py',
-     'serves_properties': ['C01', 'C04', 'C05', 'C07', 'C08', 'C09', 'C10', 'C11', 'C18'],
-     'kind_free_text': 'Verus 0.2026.09.13 single-file deductive verification of functions cut verbatim from /repo/src (and enums '
-                       'cut from pinned dependencies); contracts (spec functions, *SpecImpl blocks, injected ensures, ghost state, lemmas) in /verif/verus'},
+     'serves_properties': ['C01', 'C02', 'C04', 'C05', 'C06', 'C07', 'C08', 'C09', 'C10', 'C11', 'C12', 'C13', 'C14', 'C15', 'C17', 'C18'],
+     'kind_free_text': 'Verus 0.2026.09.13 single-file deductive verification of functions cut verbatim from /repo/src (and functions '
+                       'cut from the pinned dependency sources: cbor-smol skipper, heapless / heapless-bytes decoders); contracts (spec functions, *SpecImpl blocks, injected ensures, ghost state, lemmas) in /verif/verus'},
     {'name': 'D', 'path': '/verif/lib/decl_engine.py',
      'serves_properties': ['C01', 'C02', 'C03', 'C04', 'C05', 'C06', 'C12', 'C15', 'C16'],
      'kind_free_text': 'declaration contracts: tools/declx (syn) dumps the struct/enum declarations, the engine evaluates cfg for the 8 '
@@ -93,16 +93,16 @@ CHECKS = {
   'note': 'cbor_deserialize uninterpreted (only reached for parameter-bearing commands); vstd specs of slice::split_first / Option::ok_or trusted; three stated desugarings applied to Request::deserialize.',
  },
  'C12': {
-  'engine': 'D+K', 'design_ref': 'DESIGN.md §5 C12',
-  'technique': 'Verus-discharged declaration obligations: capacity / integer width of every bounded member against the limit table, sizes.rs constants per configuration; bounded Kani probe at N / N+1',
-  'text': 'Every bounded request member has exactly the declared capacity or integer type in every feature configuration. That the containers accept exactly <= N, reject N+1 and copy verbatim is the assumed contract A4, probed on the real code at 32/33 bytes.',
-  'note': 'A4, A5 assumed; accepted values "delivered whole" for borrowed members follows from zero-copy decoding (A8).' + _D,
+  'engine': 'D+V+K', 'design_ref': 'DESIGN.md §5 C12, §10.4f',
+  'technique': 'Verus-discharged declaration obligations: capacity / integer width of every bounded member against the limit table, sizes.rs constants per configuration; Verus proof of the heapless / heapless-bytes container decoders on the pinned dependency sources (any input length); Kani probes at N / N+1 and integer ranges on the real decoder',
+  'text': 'Every bounded request member has exactly the declared capacity or integer type in every feature configuration. That the containers accept exactly <= N, reject anything longer and copy verbatim is proved on the pinned heapless / heapless-bytes sources for every N and input length (unit dep_container_decoders, over the assumed Vec::push / extend_from_slice contracts) and probed on the real code at 32/33 bytes.',
+  'note': 'A5 assumed; heapless Vec primitives (unsafe code) assumed and Kani-validated; accepted values "delivered whole" for borrowed members follows from zero-copy decoding (A8).' + _D,
  },
  'C13': {
-  'engine': 'K', 'design_ref': 'DESIGN.md §5 C13',
-  'technique': 'Kani function contract on floor_char_boundary (proof_for_contract), truncate proved against that contract, icon helpers through a serde value deserializer; bounded in the string length',
-  'text': 'Bounded contract checking: floor_char_boundary == longest boundary prefix (no UB at unwrap_unchecked) for all valid UTF-8 strings <= 6 bytes (thorough 8) and, under the window precondition, <= 300 bytes with every index; truncate::<L> for L in {1,2,3,4,64}; user icon kept verbatim <= 128 bytes and dropped beyond (this found the icon panic, fixed); rp icon discarded.',
-  'note': 'string length bounded (stated per harness); rejection of ill-formed UTF-8 is cbor-smol\'s from_utf8 (A8); A12 for the window variant.',
+  'engine': 'V+K', 'design_ref': 'DESIGN.md §5 C13, §10.4f',
+  'technique': 'Verus proof of the two lossy text helpers (verbatim) and of the heapless String code under them, for texts of any length, against the contract of truncate; Kani function contract on floor_char_boundary (proof_for_contract), truncate proved against that contract, icon and name helpers through serde value deserializers (bounded in the string length)',
+  'text': 'Unbounded (Verus): the icon helper keeps a text of at most L bytes verbatim and reports a longer one absent, never an error; the name helper maps absent to absent and a present text to truncate(text), specified as the longest prefix of at most L bytes ending on a character boundary (a text that fits is unchanged). Bounded contract checking (Kani): floor_char_boundary == longest boundary prefix (no UB at unwrap_unchecked) for all valid UTF-8 strings <= 6 bytes (thorough 8) and, under the window precondition, <= 300 bytes with every index; truncate::<L> for L in {1,2,3,4,64}; user icon kept verbatim <= 128 bytes and dropped beyond, ASCII and multi-byte texts (this found the icon panic, fixed); present names stay present; rp icon discarded.',
+  'note': 'truncate / floor_char_boundary bodies: string length bounded (stated per harness), hence level model_checking; serde Deserialize of &str / Option<&str> modelled by contract; rejection of ill-formed UTF-8 is cbor-smol\'s from_utf8 (A8); A12 for the window variant.',
  },
  'C14': {
   'engine': 'V+K', 'design_ref': 'DESIGN.md §5 C14, §10.4e',
